@@ -336,8 +336,15 @@ def audit(res, prop: str, repo: str, seed: int):
     seeds = [o for o in outs if o['kind'] == S]
     twins = [o for o in outs if o['kind'] == T]
     undetected = [o for o in seeds if o['status'] in ('clean', 'error')]
-    noisy = [o for o in twins if o['status'] in ('violated', 'error')]
+    try:
+        listed = {'kept:' + l.strip() for l in open(os.path.join(VERIF_DIR, 'twins', 'NO-VERDICT.txt')) if l.strip() and not l.startswith('#')}
+    except OSError:
+        listed = set()
+    # a refactoring listed in twins/NO-VERDICT.txt may end without a verdict (analysis error) - never with a violation
+    no_verdict = [o for o in twins if o['status'] == 'error' and o['name'] in listed]
+    noisy = [o for o in twins if o['status'] in ('violated', 'error') and o not in no_verdict]
     res.extra['sensitivity'] = {
+        'twins_without_verdict_by_design': [o['name'] for o in no_verdict],
         'seeded': len([o for o in seeds if o['status'] != 'skipped']), 'detected': len([o for o in seeds if o['status'] == 'violated']),
         'twins': len([o for o in twins if o['status'] != 'skipped']), 'silent': len([o for o in twins if o['status'] == 'clean']),
         'skipped': len([o for o in outs if o['status'] == 'skipped']),
